@@ -22,6 +22,9 @@ Local Notation scan := (@scan K V T).
 Local Notation scan_loop := (@scan_loop K V T).
 Local Notation dbg_assert := (@dbg_assert K V T debug).
 Local Notation dec_len := (@dec_len K V T debug).
+Local Notation unwind_pair := (unwind_pair E).
+Local Notation unwind_pairs := (unwind_pairs E).
+Local Notation unwind_key := (unwind_key E).
 Local Notation drop_key := (drop_key E).
 Local Notation drop_val := (drop_val E).
 Local Notation drop_pair := (drop_pair E).
@@ -125,9 +128,11 @@ Definition remove_entry (q : Q) : M (option (K * V)) :=
   | Some i => p <- remove_index_read i ;; ret (Some p)
   end.
 
-(* src/map.rs:699-724  insert_ii *)
+(* src/map.rs:699-724  insert_ii.  k and v are locals of this frame until they
+   are written into a slot: a panic before that (a panicking comparison, the
+   debug assertion, the bounds check of pairs[i]) destroys them while unwinding. *)
 Definition insert_ii (k : K) (v : V) (update_key : bool) : M (nat * option (K * V)) :=
-  r <- scan (test_k k) ;;
+  r <- on_unwind (unwind_pair (k, v)) (scan (test_k k)) ;;
   match r with
   | Some i =>
       if update_key then
@@ -137,7 +142,7 @@ Definition insert_ii (k : K) (v : V) (update_key : bool) : M (nat * option (K * 
   | None =>
       i <- get_len ;;
       c <- get_cap ;;
-      dbg_assert (i <? c) ;;
+      on_unwind (unwind_pair (k, v)) (dbg_assert (i <? c) ;; check_index i) ;;
       p_write_checked i (k, v) ;;
       set_len (S i) ;;
       ret (i, None)
@@ -146,7 +151,7 @@ Definition insert_ii (k : K) (v : V) (update_key : bool) : M (nat * option (K * 
 (* src/map.rs:728-749  insert_ii_for_full *)
 Definition insert_ii_for_full (k : K) (v : V) (update_key : bool)
   : M (option (nat * (K * V))) :=
-  r <- scan (test_k k) ;;
+  r <- on_unwind (unwind_pair (k, v)) (scan (test_k k)) ;;
   match r with
   | Some i =>
       if update_key then
@@ -173,7 +178,7 @@ Fixpoint insert_i_loop (k : K) (fuel i : nat) : M (nat * option (K * V)) :=
 
 Definition insert_i (k : K) (v : V) (update_key : bool) : M (nat * option (K * V)) :=
   n <- get_len ;;
-  '(target, existing) <- insert_i_loop k n 0 ;;
+  '(target, existing) <- on_unwind (unwind_pair (k, v)) (insert_i_loop k n 0) ;;
   (if target =? n then set_len (S n) else ret tt) ;;
   match existing, update_key with
   | Some (old_k, old_v), false =>
@@ -385,13 +390,14 @@ Definition call_next (nx : T -> ans * T) : M unit :=
 Definition drop_opt_val (o : option V) : M unit :=
   match o with None => ret tt | Some v => drop_val v end.
 
+(* the items not yet yielded belong to the source iterator, a local of the
+   loop's frame: they are destroyed when a panic unwinds through it *)
 Fixpoint extend_loop (nx : T -> ans * T) (items : list (K * V)) : M unit :=
   match items with
   | [] => call_next nx
   | (k, v) :: rest =>
-      call_next nx ;;
-      old <- insert k v ;;
-      drop_opt_val old ;;
+      on_unwind (unwind_pairs items) (call_next nx) ;;
+      on_unwind (unwind_pairs rest) (old <- insert k v ;; drop_opt_val old) ;;
       extend_loop nx rest
   end.
 
